@@ -274,6 +274,8 @@ class Program:
 
     # ---------------------------------------------------------------- JDF
     def jdf(self, tpidx=0, body_extra=''):
+        # typed programs (C18; attribute `typed`): region-aware reads (harness logs the three partitions of every tile, no whole-tile verdict)
+        rd = (lambda fl, i: 'vf_e1_read_reg(%s, vr, %d, 0)' % (fl, i)) if getattr(self, 'typed', False) else (lambda fl, i: 'vf_e1_read(%s, vr, %d)' % (fl, i))
         L = []
         L.append('extern "C" %{\n#include "parsec.h"\n#include "e1_rt.h"\n%}\n')
         L.append('D  [ type="parsec_data_collection_t*" ]')
@@ -307,15 +309,17 @@ class Program:
                     L.append('    vr->in[%d] = 0;' % i); continue
                 newg = [d for d in fl.ins if d.t.kind == 'new' or (d.f is not None and d.f.kind == 'new')]
                 if newg:
-                    L.append('    vr->in[%d] = ( %s ) ? 0 : vf_e1_read(%s, vr, %d);' % (i, self._new_cond(fl), fl.name, i))
+                    L.append('    vr->in[%d] = ( %s ) ? 0 : %s;' % (i, self._new_cond(fl), rd(fl.name, i)))
                 else:
-                    L.append('    vr->in[%d] = vf_e1_read(%s, vr, %d);' % (i, fl.name, i))
+                    L.append('    vr->in[%d] = %s;' % (i, rd(fl.name, i)))
                 L.append('    vacc = vf_e1_mix(vacc, vr->in[%d]);' % i)
             L.append('    vf_e1_maybe_sleep(vr);')
             for i, fl in enumerate(tc.flows):
                 if fl.mode == 'CTL': continue
                 if fl.mode in ('RW', 'WRITE'):
                     L.append('    if( NULL != %s ) { vr->out[%d] = vf_e1_mix(vacc, %d); vf_e1_write(%s, vr->out[%d]); } else vr->out[%d] = -1;' % (fl.name, i, 77 + i, fl.name, i, i))
+                    if getattr(self, 'typed', False):
+                        L.append('    (void)vf_e1_read_reg(%s, vr, %d, 1);' % (fl.name, i))
                 else:
                     L.append('    vr->out[%d] = vr->in[%d];' % (i, i))
             if body_extra: L.append(body_extra)
@@ -345,6 +349,7 @@ class Program:
         """C glue appended to the LAST jdf of a scenario: vf_prog_count/new/free for the list of programs"""
         progs = progs or [self]
         L = ['extern "C" %{']
+        if any(getattr(p, 'arenas', None) for p in progs): L.append('#include "parsec/data_dist/matrix/matrix.h"')
         for i, p in enumerate(progs):
             if p is not self:
                 L.append('#include "%s.h"' % p.name)
@@ -355,12 +360,19 @@ class Program:
             args = ', '.join(['D'] + [str(v) for _, v in p.globals])
             L.append('  case %d: { parsec_%s_taskpool_t *tp = parsec_%s_new(%s);' % (i, p.name, p.name, args))
             L.append('    parsec_arena_datatype_set_type(&tp->arenas_datatypes[PARSEC_%s_DEFAULT_ADT_IDX], sizeof(int64_t)*vf_ts, PARSEC_ARENA_ALIGNMENT_SSE, vf_tile_dtt);' % p.name)
+            # extra arenas of typed programs (C18): attribute `arenas` = {name: 'lower' | 'upper' | 'rect'}; tiles are vf_mb x vf_mb int64
+            for an, kind in sorted(getattr(p, 'arenas', {}).items()):
+                a = '&tp->arenas_datatypes[PARSEC_%s_%s_ADT_IDX]' % (p.name, an)
+                if kind == 'rect': L.append('    parsec_matrix_adt_define_rect(%s, parsec_datatype_int64_t, vf_mb, vf_mb, vf_mb);' % a)
+                else: L.append('    parsec_matrix_adt_define_%s(%s, parsec_datatype_int64_t, 1, vf_mb);' % (kind, a))
             L.append('    return (parsec_taskpool_t*)tp; }')
         L.append('  }\n  return NULL;\n}')
         L.append('void vf_prog_free(int i, parsec_taskpool_t *tp) {')
         L.append('  switch(i) {')
         for i, p in enumerate(progs):
-            L.append('  case %d: PARSEC_OBJ_DESTRUCT(&((parsec_%s_taskpool_t*)tp)->arenas_datatypes[PARSEC_%s_DEFAULT_ADT_IDX]); break;' % (i, p.name, p.name))
+            ex = ''.join(' parsec_matrix_arena_datatype_destruct_free_type(&((parsec_%s_taskpool_t*)tp)->arenas_datatypes[PARSEC_%s_%s_ADT_IDX]);' % (p.name, p.name, an)
+                         for an in sorted(getattr(p, 'arenas', {})))
+            L.append('  case %d:%s PARSEC_OBJ_DESTRUCT(&((parsec_%s_taskpool_t*)tp)->arenas_datatypes[PARSEC_%s_DEFAULT_ADT_IDX]); break;' % (i, ex, p.name, p.name))
         L.append('  }\n  parsec_taskpool_free(tp);\n}')
         L.append('%}')
         return '\n'.join(L)
